@@ -131,7 +131,7 @@ def run(rep, tier, seed, tr_errors):
         "float(str) modelled as the exact decimal value, compared with the double at relative 2^-48; Python's recursion limit modelled by a depth budget (the generator avoids nesting depths between 100 and 1000)",
         "str.strip()/whitespace restricted to ASCII in the model; generated strings are ASCII",
     ]
-    thm_ok, names, out = lib.check_props_file(rep, PROPS_FILE, expect=["C04_tokenize_total", "C04_parse_total_partial", "C04_builtin_registry_wf", "C04_stack_discipline"])
+    thm_ok, names, out = lib.check_props_file(rep, PROPS_FILE, expect=["C04_tokenize_total", "C04_parse_total", "C04_builtin_registry_wf", "C04_stack_discipline"])
     strings, n_exh = build_strings(ctx, tier, seed)
     seen = set()
     uniq = []
